@@ -357,6 +357,70 @@ class Sys(Family):
         return ConnFamily.shrink(self, case, bad)
 
 
+class Pair(Family):
+    """two (or three) connections served by one process at the same time, their events interleaved: every connection gets exactly the
+    response it gets when it is alone - nothing of one connection (buffers, queues, cached requests, peer data) shows up in another"""
+
+    name = "pair"
+    quick_n = 500
+    thorough_n = 12000
+
+    def gen(self, rng: random.Random, n: int):
+        from .srvfam import gen_orderly
+
+        sysfam = Sys()
+        sub = sysfam.gen(random.Random(rng.randrange(1 << 30)), 10 ** 9)
+        for i in range(n):
+            conns = []
+            for j in range(rng.choice([2, 2, 3])):
+                c = next(sub) if rng.random() < 0.7 else gen_orderly(rng)
+                # no clock events: the connections share one event loop clock, so a tick of one is a tick of all
+                c["evs"] = [e for e in c["evs"] if e[0] not in ("t", "tick", "wall")]
+                c["peer"] = f"192.0.2.{j + 1}"
+                c["cert"] = rng.choice([None, None, 0, 1, 2])
+                c["delay"] = rng.randint(0, 40)
+                conns.append(c)
+            yield {"conns": conns}
+
+    def impl(self, case):
+        import asyncio
+
+        from .srvfam import get_loop
+
+        loop = get_loop()
+
+        async def one(c):
+            for _ in range(c["delay"]):
+                await asyncio.sleep(0)
+            return await sim.run_conn(loop, c)
+
+        async def together():
+            return await asyncio.gather(*(one(c) for c in case["conns"]))
+
+        keep = ("acts", "h", "u", "m", "content", "dropped", "exc", "mwargs", "hargs", "lost", "paused_end", "pending")
+        tog = [{k: o[k] for k in keep} for o in loop.run_until_complete(together())]
+        alone = [{k: o[k] for k in keep} for o in (loop.run_until_complete(one(c)) for c in case["conns"])]
+        return {"together": tog, "alone": alone}
+
+    def model(self, case):
+        return None      # each connection alone is compared with M-Sys in family sys
+
+    def oracle(self, case, obs):
+        sysfam = Sys()
+        for j, (c, t, a) in enumerate(zip(case["conns"], obs["together"], obs["alone"])):
+            v = sysfam.oracle(c, t)
+            if v:
+                return (v[0], f"connection {j + 1} of {len(case['conns'])} served at the same time: " + v[1])
+            if t != a:
+                diff = [k for k in t if t[k] != a[k]]
+                return ("connections-interfere", f"connection {j + 1} of {len(case['conns'])}: served together with the others it differs from being served alone in {diff}: "
+                                                 f"{str({k: t[k] for k in diff})[:300]} vs alone {str({k: a[k] for k in diff})[:300]}")
+        return None
+
+    def key(self, case, obs):
+        return "+".join(sorted(f"w{min(len([a for a in o['acts'] if a[0] == 'w']), 4)}c{int(['close'] in o['acts'])}h{o['h']}u{o['u']}" for o in obs["together"]))
+
+
 class LiveTail(Family):
     """The real `start_server` (stdlib TLS transport) serving a file small enough that the whole response is handed to the
     transport at once, to a client that reads 32 KiB and then pauses for 31 s of server time: close() has been called, the
@@ -401,4 +465,4 @@ class LiveTail(Family):
         return self._live.key(case, obs)
 
 
-FAMILIES = [Events(), Render(), Pump(), Content(), Flow(), Sys(), LiveTail()]
+FAMILIES = [Events(), Render(), Pump(), Content(), Flow(), Sys(), Pair(), LiveTail()]
